@@ -174,7 +174,8 @@ class SymB:
         ctx = Ctx.cur
         if ctx is None:
             raise HarnessError(f"bool() on symbolic condition outside an execution context: {t}")
-        return ctx.decide([(True, t), (False, z3.Not(t))])
+        ctx.keep.append(t)
+        return ctx.decide([(True, t), (False, z3.Not(t))], memo_key=('b', t.get_id()))
 
     def __and__(self, o):
         return SymB(z3.And(self.t, liftb(o)))
@@ -729,6 +730,8 @@ class Ctx:
         self.side = []
         self.todo = []
         self.trace = []
+        self.memo = {}
+        self.keep = []   # keeps memoised ASTs alive so that their ids stay unique
         self.solver = solver
         self.timeout_ms = timeout_ms
 
@@ -754,13 +757,53 @@ class Ctx:
             raise Inconclusive(f"feasibility unknown: {s.reason_unknown()}")
         return r == z3.sat
 
-    def decide(self, options, label=None):
+    def feasible_options(self, options):
+        """indices of the options whose condition is satisfiable on this path
+        (model-guided: one solver call per feasible option, plus one)"""
+        if len(options) <= 2:
+            return [i for i, (v, c) in enumerate(options) if self.feasible(c)]
+        s = self._solver()
+        s.push()
+        s.add(*self.pc)
+        s.add(*self.side)
+        conds = [c for v, c in options]
+        s.add(z3.Or(*conds))
+        feas = []
+        try:
+            while True:
+                t0 = time.time()
+                r = s.check()
+                STATS.solver_s += time.time() - t0
+                STATS.feas_queries += 1
+                if r == z3.unknown:
+                    raise Inconclusive(f"feasibility unknown: {s.reason_unknown()}")
+                if r != z3.sat:
+                    break
+                m = s.model()
+                hit = None
+                for i, c in enumerate(conds):
+                    if i in feas:
+                        continue
+                    if z3.is_true(m.eval(c, model_completion=True)):
+                        hit = i
+                        break
+                if hit is None:
+                    raise HarnessError("model satisfies no option")
+                feas.append(hit)
+                s.add(z3.Not(conds[hit]))
+        finally:
+            s.pop()
+        return sorted(feas)
+
+    def decide(self, options, label=None, memo_key=None):
         """options: list of (value, condition); picks per the decision prefix,
         scheduling the other feasible options for later re-execution."""
+        if memo_key is not None and memo_key in self.memo:
+            return self.memo[memo_key]
         if self.pos < len(self.prefix):
             k = self.prefix[self.pos]
         else:
-            feas = [i for i, (v, c) in enumerate(options) if self.feasible(c)]
+            feas = self.feasible_options(options)
             if not feas:
                 raise Infeasible()
             k = feas[0]
@@ -771,6 +814,8 @@ class Ctx:
         v, c = options[k]
         self.pc.append(c)
         self.trace.append((label, v))
+        if memo_key is not None:
+            self.memo[memo_key] = v
         return v
 
 
@@ -786,6 +831,10 @@ def concretize_int(s, cap=96):
     ctx = Ctx.cur
     if ctx is None:
         raise HarnessError(f"symbolic integer needs a concrete value outside a context: {s}")
+    mk = ('i', s.t.get_id())
+    ctx.keep.append(s.t)
+    if mk in ctx.memo:
+        return ctx.memo[mk]
     if ctx.pos < len(ctx.prefix):
         # replaying: value recorded in the prefix as ('v', value)
         k = ctx.prefix[ctx.pos]
@@ -793,6 +842,7 @@ def concretize_int(s, cap=96):
         iv = k[1]
         ctx.pc.append(s.t == iv)
         ctx.trace.append(('int', iv))
+        ctx.memo[mk] = iv
         return iv
     sol = z3.Solver()
     sol.set('timeout', ctx.timeout_ms)
@@ -828,6 +878,7 @@ def concretize_int(s, cap=96):
     ctx.pos += 1
     ctx.pc.append(s.t == vals[0])
     ctx.trace.append(('int', vals[0]))
+    ctx.memo[mk] = vals[0]
     return vals[0]
 
 
